@@ -5,8 +5,16 @@
    receiver's fields: a new field, or a new package-level variable (a pool, a cache, a scratch buffer), is state the
    model does not have, and the correspondence runs no longer justify the theorems. *)
 From Coq Require Import List String.
-From Mant Require Import Gen.Shapes Model.ShapesExpected.
+From Mant Require Import Gen.Shapes Model.ShapesExpected Gen.Wraps Model.WrapsExpected.
 
 Theorem C17_state_space : shapes_C17 = expected_C17.
 Proof. reflexivity. Qed.
 Print Assumptions C17_state_space.
+
+(* The models use unbounded numbers and write every wrap explicitly.  The places where the source computes in a
+   fixed-width integer type (non-constant +, -, *, <<, compound assignments, ++/--) or narrows an integer are
+   re-read on every run (go2coq wraps, go/types per package) and must be the ones the models were written against:
+   a new site is arithmetic the model does not wrap. *)
+Theorem C17_wrap_sites : wraps_C17 = expected_wraps_C17.
+Proof. reflexivity. Qed.
+Print Assumptions C17_wrap_sites.
